@@ -241,9 +241,19 @@ def register(reg):
       "direct_true_count: a `true` flag sits exactly on actions appended by a doc step performed at indirection "
       "level 0. Tie: the model's direct list equals the engine's for every bundle. Search: independent classification "
       "of every stored action of record-edit bundles (formula-only updates, summary-table row maintenance and column "
-      "conversion while entering data must be non-direct; the requested edit on a user table must be direct).",
+      "conversion while entering data must be non-direct; the requested edit on a user table must be direct; for an "
+      "upsert the requested edit is the rows its return value reports as added / updated). Bundles in which a "
+      "summary-table helper formula is evaluated in the MIDDLE of the bundle - an [Bulk]AddOrUpdateRecord whose "
+      "`require` key is a formula column reading a summary table, after an edit of the same bundle moved / added "
+      "source rows into groups without a summary row - are produced on every run by witness histories (group-by "
+      "Text / Int / ChoiceList / two columns, upsert on the source table or on another table) and by the generator "
+      "kinds c31_mid_setup / c31_mid_upsert; they are judged by the direct oracle ONLY (counters mid_witness_bundles, "
+      "summary_row_added_mid_bundle*, upsert_keyed_on_formula_column*, upsert_requested_edits_judged).",
       "which code runs inside `with indirect_actions()` (useractions/summary/docmodel) is observed through the "
-      "recorded flag of each doc step, not modelled.",
+      "recorded flag of each doc step, not modelled: the model agrees with the engine whatever flag a mid-bundle "
+      "summary row carries, so only the direct oracle can fault it. On the unchanged tree such bundles also drop "
+      "the calc deltas of the cells evaluated mid-bundle from `stored` (a C02 matter, counted in "
+      "other_property_findings_ignored, not judged by C31).",
       "Lean 4 invariant over step words + refinement check + independent classification oracle")
 
   reg("C03", "proof",
@@ -469,9 +479,17 @@ def register(reg):
       "such documents (80% of the histories, every configuration x reader kind of the small scope, 27 fixed reader witnesses) "
       "the property's own clauses judge the real outcome (evaluated cells within [must, may]; an explicit value set by the "
       "last user action is never recalculated and such a recalculation is never attributed to a recorded finding; every "
-      "reader agrees with the final trigger cells).",
-      "recalcDeps are plain data columns, formula columns over plain data columns, or the column itself (never a reader of a "
-      "trigger column); values of the "
+      "reader agrees with the final trigger cells). Also DIRECT ORACLE ONLY: the lookup family - trigger formulas that "
+      "PERFORM lookups (Table.lookupOne / lookupRecords into another table K or into the table itself), trigger columns that "
+      "list ANOTHER trigger column in recalcDeps (chains of up to three), and edits of the looked-up table that change the key "
+      "set of looked-up keys (quick: 48 histories + 35 fixed witnesses every run; counters lk_*, tdep_*, lookup_witness_held): "
+      "a lookup made by a trigger formula is not a dependency, so edits of the looked-up table must recalculate nothing; a "
+      "recalcDeps cell that is itself a trigger cell counts as changed / written / recomputed according to the real outcome "
+      "observed for that cell. The Lean model has one trigger column per op and no lookups: the lookup column itself (plain "
+      "recalcDeps) is still tied to the model, columns listing another trigger column are not (tie_skipped_trigger_dep).",
+      "recalcDeps are plain data columns, formula columns over plain data columns, the column itself, or (lookup family) "
+      "another trigger column without cycles (never a reader of a trigger column); a recomputed trigger dependency is "
+      "attributed to the only user action of the bundle naming rows of the table (several: MAY only); values of the "
       "column's type; tie skipped (oracle applied) for bundles with record edits after a schema change; six recorded findings "
       "(known_findings.json): supplied value on add overwritten, trimmed explicit value, exemptions cleared per user "
       "action, stale edges within a bundle, stale entry on re-added row id, entries surviving a failed bundle.",
